@@ -44,7 +44,7 @@ ASSUMPTIONS = [
 KINDS = ("supervised", "semi", "knn", "unsup", "unsup_prop")
 
 
-EXPECTED_PROBES = ['non_contiguous_arrays', 'distance_matrix_unrelated_to_features', 'query_of_overflowing_magnitude', 'non_float64_features', 'index_arrays_passed_without_precomputed_distances', 'batch_longer_than_training_set', 'duplicates_inside_one_batch', 'model_', 'position_ge1_is_valid_training_index', 'query_equals_training_sample', 'query_raises_consistently', 'successful_predict_after_abort']
+EXPECTED_PROBES = ['training_identifiers_unlike_positions', 'non_contiguous_arrays', 'distance_matrix_unrelated_to_features', 'query_of_overflowing_magnitude', 'non_float64_features', 'index_arrays_passed_without_precomputed_distances', 'batch_longer_than_training_set', 'duplicates_inside_one_batch', 'model_', 'position_ge1_is_valid_training_index', 'query_equals_training_sample', 'query_raises_consistently', 'successful_predict_after_abort']
 
 
 def arms(tier):
@@ -82,6 +82,11 @@ def gen_case(rng, arm, tier, k=0):
         # the caller passes index arrays although distances are computed on the fly: they only
         # name the samples and must not influence any label (small values collide with training idx)
         case["query_idx"] = [rng.randrange(0, n + 2) for _ in range(20)]
+    if arm != "pre" and rng.random() < 0.2:
+        # the training samples carry identifiers of their own (a permutation, or values beyond n)
+        tid = list(range(n + 4)) if rng.random() < 0.5 else [3 * i + 1 for i in range(n + 4)]
+        rng.shuffle(tid)
+        case["train_ids"] = tid
     if kind == "semi":
         case["XU"] = gen_matrix(rng, rng.randint(0, 5), d, style)
     if kind == "knn":
@@ -131,7 +136,7 @@ def gen_case(rng, arm, tier, k=0):
     ops = []
     for _ in range(rng.randint(4, 30)):
         r = rng.random()
-        blen = rng.choice((1, 1, 2, 2, 3, 4, 5, 8, 16))
+        blen = rng.choice((1, 1, 2, 2, 3, 4, 5, 8, 16, 33, 40, 70))
         batch = [rng.randrange(npool) for _ in range(blen)]
         if rng.random() < 0.3:
             # the same sample at several positions of one batch
@@ -224,6 +229,8 @@ def build_model(case):
         m.pre_computed_distance = True
         m.pre_distances = M
         I = iarr(list(range(n)))
+    if not case["pre"] and case.get("train_ids") and kind in ("supervised", "unsup", "unsup_prop"):
+        I = iarr(case["train_ids"][:n])
     if kind == "supervised":
         m.fit(X, Y, I)
     elif kind == "semi":
@@ -236,7 +243,12 @@ def build_model(case):
         if set(case["Y"][v] for v in vi) != set(case["Y"]):
             raise OutOfDomain()
         XV, YV = tarr(case, [case["X"][v] for v in vi]), iarr([case["Y"][v] for v in vi])
-        m.fit(X, Y, XV, YV, I, iarr(vi) if case["pre"] else None)
+        if not case["pre"] and case.get("train_ids"):
+            # identifiers in feature mode only name the samples
+            tid = case["train_ids"]
+            m.fit(X, Y, XV, YV, iarr(tid[:n]), iarr([tid[v] for v in vi]))
+        else:
+            m.fit(X, Y, XV, YV, I, iarr(vi) if case["pre"] else None)
     else:
         m.fit(X, Y, I)
         if kind == "unsup_prop":
@@ -405,6 +417,8 @@ def run_case(case):
             bump(out.probes, "non_float64_features")
         if case.get("layout"):
             bump(out.probes, "non_contiguous_arrays")
+        if case.get("train_ids") and not case["pre"]:
+            bump(out.probes, "training_identifiers_unlike_positions")
         if case.get("free_matrix_seed") is not None:
             bump(out.probes, "distance_matrix_unrelated_to_features")
         if any(p_[0] == "row" and any(abs(v) >= 1e150 for v in p_[1]) for p_ in case["pool"]):
